@@ -86,8 +86,18 @@ Fixpoint sortedb (s : list rect) : bool :=
 Definition sep (a b : rect) : Prop :=
   bottom a <= top b \/ bottom b <= top a \/ right a < left b \/ right b < left a.
 
+(* [novm a b]: a and b are not stacked directly on top of each other with the same column
+   range (such a pair would have been stretched into one rectangle by the add that brought
+   the second one in).  tickit_rectset_subtract relies on it: it keeps the number of
+   members sorting before the one being processed constant while the remains are re-added,
+   so that no unprocessed member can slide below the loop index. *)
+Definition novm (a b : rect) : Prop :=
+  ~ (left a = left b /\ right a = right b /\ (bottom a = top b \/ bottom b = top a)).
+
+Definition sepx (a b : rect) : Prop := sep a b /\ novm a b.
+
 Definition Inv (s : list rect) : Prop :=
-  Forall nonempty s /\ pairwise sep s /\ sorted s.
+  Forall nonempty s /\ pairwise sepx s /\ sorted s.
 
 (* ---- representative cells (deduplicated edge values) ---- *)
 Definition rep_cells_nd (s : list rect) : list cell :=
